@@ -199,8 +199,10 @@ array_t* get_dir (char *path, int flags) {
   for (de = readdir (dirp); de; de = readdir (dirp))
     {
       namelen = strlen (de->d_name);
-      if (!do_match && (strcmp (de->d_name, ".") == 0 ||
-                        strcmp (de->d_name, "..") == 0))
+      /* "." and ".." are never listed, not even when a pattern such as ".?" or ".*"
+       * matches them: with flags == -1 "<dir>/.." is stat()ed below, and for the root
+       * directory that is the directory that holds the mudlib. */
+      if (strcmp (de->d_name, ".") == 0 || strcmp (de->d_name, "..") == 0)
         continue;
       if (do_match && !match_string (regexppath, de->d_name))
         continue;
@@ -251,8 +253,7 @@ array_t* get_dir (char *path, int flags) {
   for (i = 0, de = readdir (dirp); i < count; de = readdir (dirp))
     {
       namelen = strlen (de->d_name);
-      if (!do_match && (strcmp (de->d_name, ".") == 0 ||
-                        strcmp (de->d_name, "..") == 0))
+      if (strcmp (de->d_name, ".") == 0 || strcmp (de->d_name, "..") == 0)
         continue;
       if (do_match && !match_string (regexppath, de->d_name))
         continue;
